@@ -67,7 +67,8 @@ def post_worker(variant):
         cfg.fact_defaults.insert(0, MAP_TRUE)
         cfg.rawset_raises = False
         cfg.user_may_raise = False
-    it, outs = run_function(ctx.p, ctx.H, fi, args, kw, frozen=False, do_not_copy=False, configure=conf)
+    it, outs = run_function(ctx.p, ctx.H, fi, args, kw, frozen=False, do_not_copy=False, configure=conf,
+                            initializing=None)     # both during and after construction
     rows = []
     for o in outs:
         if o.kind != "ok":
